@@ -217,6 +217,53 @@ function exploreCase(cs, bundle, rep, depth2) {
   if (seen.size > 1) rep.nontrivialCase(cs.name)
 }
 
+/** C14 (update-equivalence clause): the bundle of the original and the bundle of its re-printed text behave alike on the real
+ *  runtime — at creation from both initial states and after every enabled transition (and a reduced second one in the thorough tier) */
+function exploreEquivalence(cs, bundle, bundle2, rep, depth2) {
+  const names = G.collectNames([cs.main, cs.files])
+  let failed = false
+  const differs = (labels, init, a, b, ops) => {
+    if (failed) return
+    failed = true
+    rep.violation(`C14|update-equivalence|${cs.name.replace(/\|syntax.*/, '')}`, `template ${JSON.stringify(cs.__src)} (${cs.name}) and its re-printed text ${JSON.stringify(cs.__printed)}: ${labels.length ? 'after ' + JSON.stringify(labels) + ' ' : 'at creation '}from initial state ${init} the original shows ${a}, the re-printed one ${b}`,
+      { engine: 'c14u', case: cs.name, initial: init, history: ops, labels })
+  }
+  const run = (b, init, ts) => {
+    try {
+      const comp = D.create(b, MAIN, init, undefined)
+      for (const t of ts) applyToInstance(comp, t)
+      return D.serialize(comp.shadowRoot)
+    } catch (e) { return 'throws ' + String(e).slice(0, 120) }
+  }
+  const seen = new Set()
+  INITIAL.forEach((init, ii) => {
+    rep.evaluations += 2
+    const a0 = run(bundle, init, []); const b0 = run(bundle2, init, [])
+    if (a0 !== b0) { differs([], ii, a0, b0, []); return }
+    for (const t1 of transitions(init, names, false)) {
+      const d1 = applyToData(init, t1)
+      rep.transitions += 1
+      rep.evaluations += 2
+      const k1 = ii + '|' + key(d1)
+      if (!seen.has(k1)) { seen.add(k1); rep.states += 1 }
+      const a1 = run(bundle, init, [t1]); const b1 = run(bundle2, init, [t1])
+      if (a1 !== a0) rep.nontrivial += 1
+      if (a1 !== b1) { differs([t1.label], ii, a1, b1, [t1.ops]); continue }
+      if (!depth2) continue
+      for (const t2 of transitions(d1, names, true)) {
+        rep.transitions += 1
+        rep.evaluations += 2
+        const k2 = ii + '|' + key(applyToData(d1, t2))
+        if (!seen.has(k2)) { seen.add(k2); rep.states += 1 }
+        const a2 = run(bundle, init, [t1, t2]); const b2 = run(bundle2, init, [t1, t2])
+        if (a2 !== b2) differs([t1.label, t2.label], ii, a2, b2, [t1.ops, t2.ops])
+      }
+    }
+  })
+  rep.outcome([failed, cs.name.replace(/\(.*/, ''), seen.size])
+  if (cs.__printed !== cs.__src) rep.nontrivialCase(cs.name)
+}
+
 function corpus(thorough) {
   return G.corpus(thorough).filter(usable)
 }
@@ -231,16 +278,25 @@ function runShard(info, thorough) {
     const jobs = part.map((cs, i) => {
       const files = [[MAIN, T.print(cs.main).text]]
       for (const p of Object.keys(cs.files)) files.push([p, T.print(cs.files[p]).text])
-      return { id: i, files, scripts: Object.keys(cs.scripts).map((p) => [p, cs.scripts[p]]), want: ['groups'] }
+      return { id: i, files, scripts: Object.keys(cs.scripts).map((p) => [p, cs.scripts[p]]), want: MODE === 'C14' ? ['groups', 'stringify'] : ['groups'] }
     })
     const res = C.compileBatch(jobs, 1)
+    let res2 = null
+    if (MODE === 'C14') {
+      const jobs2 = jobs.map((j, i) => ({ id: i, files: j.files.map((f) => [f[0], res[i].panic || !res[i].outputs['stringify:' + f[0]] || res[i].outputs['stringify:' + f[0]].ok === undefined ? f[1] : res[i].outputs['stringify:' + f[0]].ok]), scripts: j.scripts, want: ['groups'] }))
+      res2 = C.compileBatch(jobs2, 1)
+      part.forEach((cs, i) => { cs.__printed = jobs2[i].files.map((f) => f[1]).join(' | ') })
+    }
     part.forEach((cs, i) => {
       cs.__src = jobs[i].files.map((f) => f[1]).join(' | ')
       if (res[i].panic) { rep.machineryErrors.push('compiler panicked on ' + cs.name); return }
       let bundle
       try { bundle = D.loadBundle(res[i].outputs.groups.ok) } catch (e) { rep.machineryErrors.push('bundle does not load: ' + cs.name + ' ' + e); return }
       try {
-        exploreCase(cs, bundle, rep, true)
+        if (MODE === 'C14') {
+          if (res2[i].panic) { rep.machineryErrors.push('compiler panicked on the printed text of ' + cs.name); return }
+          exploreEquivalence(cs, bundle, D.loadBundle(res2[i].outputs.groups.ok), rep, thorough)
+        } else exploreCase(cs, bundle, rep, true)
       } catch (e) { rep.machineryErrors.push(`explorer failed on ${cs.name}: ${e && e.stack}`) }
       if ((s + i) % 307 === 0) rep.sample({ case: cs.name, template: cs.__src, initial_states: 2 })
     })
@@ -250,6 +306,18 @@ function runShard(info, thorough) {
 }
 
 function replayOne(rec) {
+  if (MODE === 'C14') {
+    const cs = G.corpus(true).find((c) => c.name === rec.case)
+    if (!cs) return { deterministic: true, failure: null, note: 'case no longer in the corpus' }
+    const files = [[MAIN, T.print(cs.main).text]]
+    for (const p of Object.keys(cs.files)) files.push([p, T.print(cs.files[p]).text])
+    const scripts = Object.keys(cs.scripts).map((p) => [p, cs.scripts[p]])
+    const r1 = C.compileBatch([{ id: 0, files, scripts, want: ['groups', 'stringify'] }], 1)[0]
+    const r2 = C.compileBatch([{ id: 0, files: files.map((f) => [f[0], r1.outputs['stringify:' + f[0]].ok]), scripts, want: ['groups'] }], 1)[0]
+    const once = () => [r1, r2].map((r) => { const comp = D.create(D.loadBundle(r.outputs.groups.ok), MAIN, INITIAL[rec.initial], undefined); for (const ops of rec.history) applyToInstance(comp, { ops }); return D.serialize(comp.shadowRoot) })
+    const a = once(); const b = once()
+    return { deterministic: key(a) === key(b), failure: a[0] === a[1] ? null : `original ${a[0]} vs re-printed ${a[1]}` }
+  }
   const cs = G.corpus(true).find((c) => c.name === rec.case)
   if (!cs) return { deterministic: true, failure: null, note: 'case no longer in the corpus' }
   const files = [[MAIN, T.print(cs.main).text]]
@@ -281,6 +349,14 @@ async function main() {
     return
   }
   const rep = await C.runSharded(fileURLToPath(import.meta.url), ['--tier', thorough ? 'thorough' : 'quick', '--property', MODE], NODE22, ['--no-warnings', '--stack-size=4000', '--import', HOOKS])
+  if (MODE === 'C14') {
+    const res14 = rep.toResult('C14',
+      'update-equivalence clause on the real runtime: for every template of the model corpus (dynamic-slot content excluded), the bundle of the original and the bundle of its re-printed text are instantiated side by side from two initial data states and driven through every enabled transition (quick) and a reduced second transition from every reached state (thorough); the serialised shadow trees must be equal at creation and after every history. non-trivial = the printed text differs from the input',
+      { corpus: corpus(thorough).length, history_depth: thorough ? 2 : 1, initial_states: INITIAL.length },
+      true, ['the real TypeScript runtime through the node 22 loader', 'differential oracle between the two bundles'], {})
+    C.writeResult(C.argAfter('--out', C.WORK + '/C14.result.json'), res14)
+    return
+  }
   const res = rep.toResult(MODE,
     'explicit-state exploration of update histories on the real runtime: for every template of the model corpus (dynamic-slot content excluded) and two initial data states, every enabled transition (each field to each alternative value of its pool, an exact nested path, every pair of fields and all fields in one update, 13 list operations through splices / item writes / whole-list replacement) and from every reached state a second, reduced transition set; invariant: tree after the history == tree of a fresh instance with the same data. states = distinct (template, data) reached; non-trivial = the update changed the rendered tree',
     { corpus: corpus(thorough).length, history_depth: 2, initial_states: INITIAL.length, update_mode: MODE === 'C06' ? 'virtualTree (tree update)' : 'default (binding map first, tree update as fallback)' },
